@@ -1,18 +1,228 @@
 package main
 
+// sunlint: repository-specific static analyser for FiloSottile/sunlight.
+// See /verif/DESIGN.md. One subcommand per property:
+//
+//	sunlint -property C01 -tier quick
+//	sunlint -replay evidence/replay/C01-....json
+
 import (
+	"encoding/json"
+	"flag"
 	"fmt"
-	"golang.org/x/tools/go/cfg"
-	"golang.org/x/tools/go/packages"
-	"golang.org/x/tools/go/ssa"
-	"golang.org/x/tools/go/types/typeutil"
-	"golang.org/x/tools/go/callgraph/vta"
+	"os"
+	"path/filepath"
+	"runtime/debug"
+	"sort"
+	"strconv"
+	"strings"
+	"time"
 )
 
-var _ = cfg.New
-var _ = packages.Load
-var _ ssa.Value
-var _ = typeutil.Callee
-var _ = vta.CallGraph
+func main() {
+	var (
+		propID  = flag.String("property", "", "property id (C01..C20)")
+		tier    = flag.String("tier", "quick", "quick|thorough")
+		repo    = flag.String("repo", "/repo", "repository root")
+		evDir   = flag.String("evidence", "evidence", "evidence directory")
+		known   = flag.String("known", "known_findings.json", "known findings file")
+		replay  = flag.String("replay", "", "replay file: re-decide one obligation instance verbosely")
+		verbose = flag.Bool("v", false, "print every obligation instance")
+		list    = flag.Bool("list", false, "list properties and obligations")
+		noSelf  = flag.Bool("noselftest", false, "thorough: skip the rule liveness self-test")
+	)
+	flag.Parse()
 
-func main() { fmt.Println("ok") }
+	if *list {
+		var ids []string
+		for id := range registry {
+			ids = append(ids, id)
+		}
+		sort.Strings(ids)
+		for _, id := range ids {
+			p := registry[id]
+			fmt.Printf("%s %s\n", p.ID, p.Title)
+			for _, o := range p.Obligations {
+				fmt.Printf("  %-7s %-26s %-4s min=%d  %s\n", o.ID, o.Title, o.Template, o.MinInst, o.Rule)
+			}
+		}
+		return
+	}
+
+	var only *replayFile
+	if *replay != "" {
+		b, err := os.ReadFile(*replay)
+		if err != nil {
+			fatal("cannot read replay file: %v", err)
+		}
+		only = &replayFile{}
+		if err := json.Unmarshal(b, only); err != nil {
+			fatal("bad replay file: %v", err)
+		}
+		*propID = only.Property
+		*verbose = true
+		if only.Tier != "" {
+			*tier = only.Tier
+		}
+	}
+	prop := registry[*propID]
+	if prop == nil {
+		fatal("unknown property %q", *propID)
+	}
+	if *tier != "quick" && *tier != "thorough" {
+		fatal("unknown tier %q", *tier)
+	}
+	seed, _ := strconv.Atoi(os.Getenv("VERIF_SEED"))
+	start := time.Now()
+
+	abs, err := filepath.Abs(*repo)
+	if err != nil {
+		fatal("%v", err)
+	}
+	var progs []*Program
+	p0, err := LoadProgram(abs, "", nil)
+	if err != nil {
+		// a tree that does not load cannot be decided
+		fmt.Printf("UNDECIDED property=%s: cannot load %s: %v\n", prop.ID, abs, err)
+		fmt.Printf("VIOLATION property=%s replay=%s\n", prop.ID, "evidence/replay/"+prop.ID+"-load.json")
+		os.Exit(1)
+	}
+	progs = append(progs, p0)
+	if *tier == "thorough" {
+		p1, err := LoadProgram(abs, "386", nil)
+		if err != nil {
+			fmt.Printf("UNDECIDED property=%s: cannot load GOARCH=386 configuration: %v\n", prop.ID, err)
+			fmt.Printf("VIOLATION property=%s replay=%s\n", prop.ID, "evidence/replay/"+prop.ID+"-load.json")
+			os.Exit(1)
+		}
+		progs = append(progs, p1)
+	}
+
+	if only == nil {
+		old, _ := filepath.Glob(filepath.Join(*evDir, "replay", prop.ID+"-*.json"))
+		for _, o := range old {
+			os.Remove(o)
+		}
+	}
+	funcs := map[string]bool{}
+	var results []Result
+	for i, p := range progs {
+		rs := runProperty(p, prop, *tier, funcs)
+		if i > 0 {
+			for k := range rs {
+				rs[k].Instance += " [" + p.Config + "]"
+			}
+		}
+		results = append(results, rs...)
+	}
+
+	kf, err := loadKnown(*known)
+	if err != nil {
+		fatal("cannot read known findings: %v", err)
+	}
+	for i := range results {
+		r := &results[i]
+		if r.Verdict == Discharged {
+			continue
+		}
+		for _, k := range kf {
+			base := strings.SplitN(r.Instance, " [", 2)[0]
+			if k.Status == "known" && k.Property == prop.ID && k.Obligation == r.Obligation && k.Instance == base {
+				r.Known = true
+			}
+		}
+	}
+
+	selftest := map[string]any{}
+	if *tier == "thorough" && !*noSelf && only == nil {
+		selftest = runSelfTest(p0, prop, results)
+	}
+
+	// output
+	exit := 0
+	rules := map[string]string{}
+	for _, o := range prop.Obligations {
+		rules[o.ID] = o.Rule
+	}
+	nd := 0
+	for _, r := range results {
+		if only != nil && (r.Obligation != only.Obligation || strings.SplitN(r.Instance, " [", 2)[0] != strings.SplitN(only.Instance, " [", 2)[0]) {
+			continue
+		}
+		switch {
+		case r.Verdict == Discharged:
+			nd++
+			if *verbose {
+				fmt.Printf("ok        %s %-24s %s  %s  %s\n", r.Obligation, r.Title, r.Instance, strings.Join(r.Sites, ","), r.Detail)
+			}
+		case r.Known:
+			fmt.Printf("KNOWN-FINDING: property=%s %s %s: %s (%s)\n", prop.ID, r.Obligation, r.Instance, r.Detail, strings.Join(r.Sites, ","))
+		default:
+			exit = 1
+			path, _ := writeReplay(*evDir, prop, r, rules[r.Obligation], *tier)
+			fmt.Printf("%s %s %s [%s] %s at %s: %s\n", strings.ToUpper(string(r.Verdict)), r.Obligation, r.Title, r.Template, r.Instance, strings.Join(r.Sites, ","), r.Detail)
+			fmt.Printf("VIOLATION property=%s replay=%s\n", prop.ID, path)
+		}
+	}
+	if st, ok := selftest["selftest_failures"].([]string); ok && len(st) > 0 {
+		// a rule that does not react to the neutralisation of its own witness is
+		// reported, but it is a defect of the checker, not of /repo: it does not
+		// raise an alarm.
+		for _, s := range st {
+			fmt.Printf("selftest: not killed: %s\n", s)
+		}
+	}
+	wall := time.Since(start).Seconds()
+	if only == nil {
+		cmd := "bin/sunlint -property " + prop.ID + " -tier " + *tier
+		if err := writeEvidence(*evDir, prop, *tier, seed, progs, results, funcs, selftest, wall, cmd); err != nil {
+			fatal("cannot write evidence: %v", err)
+		}
+	}
+	fmt.Printf("%s %s: %d obligation instances, %d discharged, tier=%s, %.1fs\n", prop.ID, map[int]string{0: "HOLDS", 1: "FAILS"}[exit], len(results), nd, *tier, wall)
+	os.Exit(exit)
+}
+
+func fatal(format string, a ...any) {
+	fmt.Fprintf(os.Stderr, "sunlint: "+format+"\n", a...)
+	os.Exit(2)
+}
+
+// runProperty runs every obligation of prop on program p.
+func runProperty(p *Program, prop *Property, tier string, funcs map[string]bool) []Result {
+	var out []Result
+	for _, ob := range prop.Obligations {
+		out = append(out, runObligation(p, prop, ob, tier, funcs)...)
+	}
+	return out
+}
+
+func runObligation(p *Program, prop *Property, ob *Obligation, tier string, funcs map[string]bool) (res []Result) {
+	c := &Ctx{P: p, Prop: prop, Ob: ob, Tier: tier, funcs: funcs}
+	defer func() {
+		if r := recover(); r != nil {
+			c.Unk("rule panic", fmt.Sprintf("%v\n%s", r, firstLines(string(debug.Stack()), 12)))
+			res = c.Results
+		}
+	}()
+	ob.Run(c)
+	n := 0
+	for _, r := range c.Results {
+		if r.Verdict == Discharged {
+			n++
+		}
+	}
+	bad := len(c.Results) - n
+	if bad == 0 && n < ob.MinInst {
+		c.Unk("instance-count", fmt.Sprintf("rule matched %d instances, fewer than the %d confirmed by hand: anchors moved or rule went vacuous", n, ob.MinInst))
+	}
+	return c.Results
+}
+
+func firstLines(s string, n int) string {
+	l := strings.Split(s, "\n")
+	if len(l) > n {
+		l = l[:n]
+	}
+	return strings.Join(l, "\n")
+}
